@@ -196,4 +196,68 @@ theorem removePendingMark_active (S : Schema) (st : PState) (base : List NodeCtx
   rw [hn, set_base, hs.active]
   simp only [List.map_append, List.map_cons, List.map_nil, Mark.removeFromSet, filter_ne_snoc _ _ hne]
 
+/-! ### an emitted mark element in the walk -/
+
+theorem createMark_value (S : Schema) (mt : MarkTypeId) (ra : Option Attrs) (a : Attrs) (n : Nat)
+    (h : computeAttrs (S.markType mt).attrs (ra.getD []) = .ok a) :
+    ∃ id nx, createMark S mt ra n = .ok ((id, ⟨mt, a⟩), nx) := by
+  unfold createMark
+  simp only [h]
+  split
+  · exact ⟨_, _, rfl⟩
+  · exact ⟨_, _, rfl⟩
+
+/-- **an emitted mark element**: the walk opens it (the mark becomes pending), walks its children, and closes it (the
+    mark, active by then, is taken off) -/
+theorem addDom_markElem (R : RParser) (w : WState) (base : List NodeCtx) (cx : NodeCtx) (c c2 : List Node)
+    (t : TypeId) (q q2 : Nat) (pa pp : List TMark) (m : Mark) (tag : String) (attrs : List (String × List Char))
+    (r : TagRule) (ra : Option Attrs) (dkids : List DNode) (ptag : String) (prevBr : Bool)
+    (hi : Inv R.P.S w base cx [] c) (hs : MarkSt cx t q pa pp)
+    (hig : ignoreTags.contains tag = false) (hlt : listTags.contains tag = false)
+    (hf : firstRule R tag attrs = some (r, ra)) (hst : straight r = true) (hrn : r.node = none)
+    (hrm : r.mark = some (some m.ty)) (hca : computeAttrs (R.P.S.markType m.ty).attrs (ra.getD []) = .ok m.attrs)
+    (hfo : follows R.P.S ((pa ++ pp).map (·.2)) m)
+    (hkids : ∀ w1 mk, mk.2 = m → Inv R.P.S w1 base { cx with pending := pp ++ [mk] } [] c →
+      ∃ w2 cx2, addAll R.P tag dkids false w1 = .ok w2 ∧ Inv R.P.S w2 base cx2 [] c2 ∧
+        MarkSt cx2 t q2 (pa ++ pp ++ [mk]) [] ∧ cx2.uid = cx.uid) :
+    ∃ w3 cx3, addDom R.P ptag prevBr (.elem tag [] (candsFrom tag attrs R.sel 0) dkids) w = .ok w3 ∧
+      Inv R.P.S w3 base cx3 [] c2 ∧ MarkSt cx3 t q2 (pa ++ pp) [] ∧ cx3.uid = cx.uid := by
+  obtain ⟨mr, hmt, hmr, hma, hmk⟩ := firstRule_matchTag R tag attrs r ra hf w.stack
+  obtain ⟨id, nx, hcr⟩ := createMark_value R.P.S m.ty ra m.attrs w.nextMark hca
+  have hmv : (⟨m.ty, m.attrs⟩ : Mark) = m := rfl
+  have hc : c = cx.content := settles_nil_inv _ _ _ hi.settles
+  have hx : w.st.nodes[w.st.open_]? = some cx := by rw [hi.nodes, hi.open_]; exact getElem?_base base cx []
+  obtain ⟨hadd, hs1⟩ := addPendingMark_marks R.P.S w.st base cx t q pa pp (id, m) hi.nodes hi.open_ hs hfo
+  -- the state after `add_pending_mark`
+  have hi1 : Inv R.P.S { w with st := { w.st with nodes := base ++ [{ cx with pending := pp ++ [(id, m)] }] },
+                                log := w.log ++ [.addPending (id, m)], nextMark := nx } base
+      { cx with pending := pp ++ [(id, m)] } [] c :=
+    ⟨rfl, hi.open_, by rw [hc]; exact settles_nil _ _, hi.below, hi.fresh⟩
+  obtain ⟨w2, cx2, hall, hi2, hs2, hu2⟩ := hkids _ (id, m) rfl hi1
+  have hc2 : c2 = cx2.content := settles_nil_inv _ _ _ hi2.settles
+  have hidx : w2.idxOf cx.uid = some base.length := by
+    unfold WState.idxOf
+    rw [hi2.nodes]
+    exact findIdx?_base _ base cx2 [] (fun x hx => by have := hi2.below x hx; rw [hu2] at this; simp; omega) (by simp [hu2])
+  have hfo2 : follows R.P.S ((pa ++ pp).map (·.2)) (id, m).2 := hfo
+  obtain ⟨aT, hrem, hs3⟩ := removePendingMark_active R.P.S w2.st base cx2 t q2 (pa ++ pp) (id, m) hi2.nodes hi2.open_ hs2 hfo2
+  have hnk : normKids R.P tag dkids = dkids := by
+    simp only [normKids, hlt, Bool.false_and, Bool.false_eq_true, if_false]
+  have hcons : r.consuming = true := by unfold straight at hst; simp only [Bool.and_eq_true] at hst; exact hst.2
+  refine ⟨{ w2 with st := { w2.st with nodes := base ++ [{ cx2 with active := (pa ++ pp).map (·.2), activeT := aT }] },
+                    log := w2.log ++ [.removePending (id, m) (some base.length)] }, _, ?_,
+    ⟨rfl, hi2.open_, by rw [hc2]; exact settles_nil _ _, by intro x hx; exact hi2.below x hx, hi2.fresh⟩, hs3, hu2⟩
+  rw [addDom]
+  simp only [stylePre_nil R.P w cx hi.top]
+  rw [addElement_eq]
+  simp only [hmt, decideTag_straight tag mr (by rw [hmr]; exact hst) hig, hmr, hma]
+  unfold ruleOpen ruleFirst
+  have htop1 : (({ w with st := { w.st with nodes := base ++ [{ cx with pending := pp ++ [(id, m)] }] },
+                          log := w.log ++ [.addPending (id, m)], nextMark := nx } : WState)).top =
+      some { cx with pending := pp ++ [(id, m)] } := hi1.top
+  simp only [hrn, hrm, hcr, hmv, emit', emit, PState.step, hadd, Except.map, htop1, Bool.false_eq_true, if_false, hcons,
+    Bool.not_true, hmk, hnk, hall]
+  unfold ruleClose
+  simp only [Bool.false_eq_true, if_false, emit', emit, PState.step, hidx, hrem, Except.map, stylePost_nil]
+
 end PM.RoundTrip
